@@ -3852,8 +3852,15 @@ where
       }
       Value::Text(s) => {
         if is_ident_uri_data_type(self.state.cddl, ident) {
-          if let Err(e) = uriparse::URI::try_from(&**s) {
-            self.add_error(format!("expected URI data type, decoding error: {}", e));
+          // uriparse's URI::try_from converts the error of the underlying
+          // URIReference parse with an unwrap that panics for errors a URI cannot
+          // have; parsing the reference directly reports them instead
+          match uriparse::URIReference::try_from(&**s) {
+            Ok(reference) if !reference.is_relative_reference() => {}
+            Ok(_) => self.add_error("expected URI data type, decoding error: not URI".to_string()),
+            Err(e) => {
+              self.add_error(format!("expected URI data type, decoding error: {}", e));
+            }
           }
         } else if is_ident_b64url_data_type(self.state.cddl, ident) {
           if let Err(e) = base64_url::decode(s) {
